@@ -3,7 +3,7 @@
    All theorems are for EVERY schedule (list of events), every queue, pop count, number of jobs and workers. *)
 From Coq Require Import List ZArith Bool Arith Permutation.
 Import ListNotations.
-Require Import DH.C17_Queue.Model DH.C17_Queue.Lemmas DH.C17_Queue.Lemmas2 DH.C17_Queue.Check.
+Require Import DH.C17_Queue.Model DH.C17_Queue.Lemmas DH.C17_Queue.Lemmas2 DH.C17_Queue.Check DH.C17_Queue.Lemmas3 DH.C17_Queue.Lemmas4.
 
 Theorem C17_conservation : forall q0 pop njobs W sched,
   let s := qrun pop (qinit q0 njobs W) sched in Permutation (queue s ++ held s) q0.
@@ -46,6 +46,44 @@ Proof.
 Qed.
 Print Assumptions C17_oracle_disjoint.
 
+
+(* never more running jobs than workers (one submit; see C17_ext_worker_bound_across_submits_refuted for several), and the
+   jobs that hold resources (bound to them, running or not) hold exactly pop each: groups in use * pop + free = |queue| *)
+Theorem C17_worker_bound : forall q0 pop njobs W sched,
+  let s := qrun pop (qinit q0 njobs W) sched in nrunning s <= W /\ workers s + nrunning s = W.
+Proof. intros. apply (worker_bound q0 pop W). apply qinv_run, qinv_init. Qed.
+Print Assumptions C17_worker_bound.
+
+Theorem C17_group_bound : forall q0 pop njobs W sched,
+  let s := qrun pop (qinit q0 njobs W) sched in nholding s * pop + length (queue s) = length q0.
+Proof. intros. apply (group_bound q0 pop W). apply qinv_run, qinv_init. Qed.
+Print Assumptions C17_group_bound.
+
+(* the oracle raises no alarm on ANY behaviour of the mechanism model: the observation trace of every schedule is accepted,
+   and on every complete run the final check (every job ran, metadata = resources received, every resource back) passes *)
+Theorem C17_model_run_is_accepted : forall q0 pop njobs W sched,
+  let s0 := qinit q0 njobs W in
+  exists s', replay_obs pop (mkA q0 [] []) 0 (obs_trace pop s0 sched) = (None, s') /\
+    (all_finished (qrun pop s0 sched) = true -> final_ok q0 njobs (model_meta (qrun pop s0 sched)) s' = 0).
+Proof. intros. apply model_run_is_accepted. Qed.
+Print Assumptions C17_model_run_is_accepted.
+
+(* the exact FIFO prediction used on the serial backend accepts every complete schedule whose takes are in job-id order
+   (what the FIFO queue semaphore does); a schedule with takes out of order is rejected (so it is a statement about that
+   semaphore, not a consequence of the property) *)
+Theorem C17_mech_replay_accepts_fifo : forall q0 pop njobs W sched,
+  let s0 := qinit q0 njobs W in
+  fifo_sched pop s0 sched = true -> all_finished (qrun pop s0 sched) = true -> mech_replay pop s0 (obs_trace pop s0 sched) = true.
+Proof. intros q0 pop njobs W sched s0. apply mech_replay_accepts_fifo. Qed.
+Print Assumptions C17_mech_replay_accepts_fifo.
+
+Theorem C17_mech_replay_rejects_non_fifo :
+  let sched := [Take 1; Take 0; Run 1; Run 0; Finish 0; Finish 1] in
+  let s0 := qinit [10; 11]%Z 2 2 in
+  all_finished (qrun 1 s0 sched) = true /\ fifo_sched 1 s0 sched = false /\ mech_replay 1 s0 (obs_trace 1 s0 sched) = false.
+Proof. exact mech_replay_rejects_non_fifo. Qed.
+Print Assumptions C17_mech_replay_rejects_non_fifo.
+
 (* the pinned design (pop before the worker semaphore, one shared slot): F17 *)
 Theorem C17_prefix_shared_slot_refuted :
   running_received (orun 1 (oinit [10; 11; 12; 13]%Z 4 2)
@@ -62,4 +100,12 @@ Print Assumptions C17_prefix_underflow_refuted.
 Example C17_example :
   let s := qrun 2 (qinit [1;2;3;4;5]%Z 3 2) [Take 0; Take 1; Take 2; Run 0; Run 1; Finish 0; Take 2; Run 2] in
   map res (jobs s) = [[1;2];[3;4];[5;1]]%Z /\ queue s = [2]%Z /\ all_finished s = false.
+Proof. vm_compute. auto. Qed.
+
+(* non-vacuity: a complete FIFO schedule with contention (3 jobs, 2 groups of 2, 1 worker), its observation trace *)
+Example C17_example_fifo_complete :
+  let sched := [Take 0; Take 1; Take 2; Run 0; Run 1; Finish 0; Take 2; Run 1; Finish 1; Run 2; Finish 2] in
+  let s0 := qinit [1;2;3;4;5]%Z 3 1 in
+  fifo_sched 2 s0 sched = true /\ all_finished (qrun 2 s0 sched) = true /\
+  obs_trace 2 s0 sched = [ObsStart 0 [1;2]; ObsEnd 0; ObsStart 1 [3;4]; ObsEnd 1; ObsStart 2 [5;1]; ObsEnd 2]%Z.
 Proof. vm_compute. auto. Qed.
